@@ -62,6 +62,19 @@ def run(spec, R):
             batch = treegen.make_batch(rng, lang, 'auto', max_sentences=3, max_nbest=2, licensed_share=0.5,
                                        attr_domain='auto')
             flat = [st for trees in batch for st in trees]
+            if rng.random() < 0.4:
+                # head fields need not be the grammar's own (treebank files): flip some flags, also on derivable nodes
+                from vlib.checks.C12 import flip_heads
+                for st in flat:
+                    flip_heads(st.tree, rng)
+                R.count('trees:with-foreign-head-flags', len(flat))
+            if lang == 'en' and rng.random() < 0.3:
+                # categories with a conj feature look like the CCGbank artefact read_auto repairs, but are ordinary categories
+                from depccg.cat import Category
+                for st in flat:
+                    for leaf in st.tree.leaves:
+                        if rng.random() < 0.3:
+                            leaf.cat = Category.parse(rng.choice(('NP[conj]', 'S[dcl]\\NP[conj]', 'N[conj]')))
             wit = {'lang': lang, 'batch': repr([treegen.tree_dump(st.tree) for st in flat])[:3000]}
             for st in flat:
                 R.case(stable_hash(treegen.tree_dump(st.tree)), len(st.tree.leaves) >= 2)
